@@ -162,6 +162,9 @@ func checkC15(r *Run) {
 		if module {
 			src = "export {};\n" + src // without import/export syntax esbuild must assume a script (sloppy-mode block functions)
 		}
+		if i < 2 {
+			r.Sample(map[string]interface{}{"kind": "scope program", "sloppy": sloppy, "module": module, "declarations": g.decls, "source_head": trunc(src, 600)})
+		}
 		c15Program(r, pool, &st, rng, src, sloppy, module, prelude, g.decls)
 	})
 
@@ -250,7 +253,7 @@ func c15Program(r *Run, pool *Pool, st *c15Stats, rng *Rng, src string, sloppy, 
 		}
 		out := string(res.Code)
 		replay := map[string]interface{}{"input": src, "variant": v.name, "output": stripTags(out), "sloppy": sloppy, "module": module}
-		b, err := pool.Bindcheck(out, v.goal, map[string]interface{}{"pinnedTop": v.pinnedTop})
+		b, err := pool.Bindcheck(out, v.goal, map[string]interface{}{"pinnedTop": v.pinnedTop, "reportUntaggedNested": true})
 		if err != nil {
 			r.Count("oracle_errors", 1)
 			continue
@@ -605,7 +608,7 @@ func c15Bundles(r *Run, pool *Pool, st *c15Stats, prelude string) {
 				}
 				code := string(f.Contents)
 				replay := map[string]interface{}{"graph": gr, "variant": v.name, "file": f.Path, "output": stripTags(code)}
-				b, err := pool.Bindcheck(code, goal, map[string]interface{}{"pinnedTop": false})
+				b, err := pool.Bindcheck(code, goal, map[string]interface{}{"pinnedTop": false, "reportUntaggedNested": true})
 				if err != nil {
 					r.Count("oracle_errors", 1)
 					ok = false
